@@ -441,6 +441,13 @@ func (pConn *PFCPConn) handleSessionModificationRequest(msg message.Message) (me
 		return sendError(ErrWriteToDatapath)
 	}
 
+	// The session no longer holds the TEIDs the UPF chose for the removed PDRs.
+	for _, p := range delPDRs {
+		if p.UPAllocateFteid {
+			upf.fteidGenerator.FreeID(p.tunnelTEID)
+		}
+	}
+
 	err := pConn.store.PutSession(session)
 	if err != nil {
 		logger.PfcpLog.Errorf("failed to put PFCP session to store: %v", err)
